@@ -233,6 +233,14 @@ func runWalletSuite(seed uint64, n int, out *Out, stats *Stats) {
 				now = w.now + set.Interval - 1
 			}
 			watch := &ScriptWatch{fallback: func() int64 { return now }}
+			if r.Chance(1, 3) {
+				// the clock goes on while the request is served: whatever the controller reads after its
+				// first reading lies beyond the next block boundary. One request has one "now": the answer
+				// (selection, rest and the timestamp the client dates its transaction with) must hang together.
+				later := w.now + set.Interval + int64(r.U64n(uint64(set.Interval)))
+				watch = &ScriptWatch{readings: []int64{now}, fallback: func() int64 { return later }}
+				stats.Count("info/clock crosses a block boundary during the request")
+			}
 			ctl := apayment.NewInfoController(sender, set, watch, &CapLogger{})
 			// what the wallet holds, valued at the next block time (the controller's own valuation time)
 			utxos := v.Ureg.Utxos(owner.Addr)
